@@ -30,6 +30,32 @@ Theorem c02_session_only_after_checks : forall c tok jti r,
 Proof. exact session_only_after_checks. Qed.
 Print Assumptions c02_session_only_after_checks.
 
+(** ... and the store is unchanged: every key and every value it held before the callback (the session this browser
+    already has, other users' sessions) is still there afterwards, for every store content. *)
+Theorem c02_failed_check_store_unchanged : forall c tok jti r e newk newv s,
+  callback_checks c r = inl e -> callback_store c tok jti r newk newv s = s.
+Proof. exact failed_check_store_unchanged. Qed.
+Print Assumptions c02_failed_check_store_unchanged.
+
+(** The same for every callback that does not end in a session, whatever the reason (code not redeemed, token
+    response refused). *)
+Theorem c02_refused_callback_store_unchanged : forall c tok jti r newk newv s,
+  co_session (callback c tok jti r) = false -> callback_store c tok jti r newk newv s = s.
+Proof. exact refused_callback_store_unchanged. Qed.
+Print Assumptions c02_refused_callback_store_unchanged.
+
+(** A successful callback touches the entry of the session it creates and nothing else. *)
+Theorem c02_callback_touches_only_new_session : forall c tok jti r newk newv s k,
+  k <> newk -> astore_get k (callback_store c tok jti r newk newv s) = astore_get k s.
+Proof. exact callback_store_other_keys. Qed.
+Print Assumptions c02_callback_touches_only_new_session.
+
+(* non-vacuity: a failing check exists (no cookie at all), and then a two-entry store stays as it is *)
+Example c02_failed_check_store_unchanged_nonvacuous : forall c tok jti,
+  let r := {| cb_state := VStr []; cb_code := VStr []; cb_iss := VStr []; cb_error := VStr []; cb_cookie := CkNone |} in
+  callback_checks c r = inl CbNoCookie /\ callback_store c tok jti r 7 0 [(1, 11); (2, 12)] = [(1, 11); (2, 12)].
+Proof. intros c tok jti. split; reflexivity. Qed.
+
 (** The login cookie is cleared on every callback. *)
 Theorem c02_login_cookie_always_cleared : forall c tok jti r, co_clears_login (callback c tok jti r) = true.
 Proof. exact callback_always_clears_login_cookie. Qed.
